@@ -63,6 +63,13 @@ def _thin(rules, names):
     return kept
 
 
+def valid_order(rules, names):
+    """ a rule file must define a rule's SUPERIORS before the rule itself """
+    position = {name: idx for idx, name in enumerate(names)}
+    by_name = {r["name"]: r for r in rules}
+    return all(position[sup] < position[name] for name in names for sup in by_name[name]["sup"] if sup in position)
+
+
 def observe(case):
     scene, rules, scale = case["scene"], case["rules"], case["scale"]
     base = _run(scene, rules, scale)
@@ -80,6 +87,11 @@ def observe(case):
 
 def observe_many(cases):
     return [observe(case) for case in cases]
+
+
+def observe_pipeline_many(cases):
+    return [{"id": case["id"], "op": "pipeline", "scene": case["scene"], "rules": case["rules"],
+             "run": _run(case["scene"], case["rules"], 1)} for case in cases]
 
 
 def call_text(case):
@@ -104,6 +116,7 @@ def run(ctx):
             names = [r["name"] for r in ruleset]
             orders = [list(p) for p in itertools.permutations(names)][1:]
             orders += [list(c) for size in range(1, len(names)) for c in itertools.combinations(names, size)]
+            orders = [order for order in orders if valid_order(ruleset, order)]
             if ctx.quick and len(orders) > 5:
                 orders = rng.sample(orders, 5)
             cases.append({"scene": scene, "rules": ruleset, "scale": rng.choice([1, 1, 1000]), "ks": ks, "orders": orders})
@@ -112,6 +125,7 @@ def run(ctx):
         ruleset = c03.scale_rules(rng, c03.make_ruleset(rng, rules, rng.choice([2, 3])))
         names = [r["name"] for r in ruleset]
         orders = [names[::-1]] + [list(c) for c in itertools.combinations(names, len(names) - 1)]
+        orders = [order for order in orders if valid_order(ruleset, order)]
         ks = sorted(rng.sample(range(1, scene["L"]), 4)) if scene["circ"] else []
         cases.append({"scene": scene, "rules": ruleset, "scale": rng.choice([1, 1000]), "ks": ks, "orders": orders})
     for idx, case in enumerate(cases):
@@ -132,6 +146,16 @@ def run(ctx):
     ctx.evaluations = runs
     ctx.notes["pipeline_runs"] = runs
     run_batches(ctx, "Detect_Trace", cases, observe_many, describe, batch=8000, min_per_shard=100)
+    # end-to-end conformance of the base runs: the composed stage relations (Detect, Candidates, RecordSM regions)
+    pipeline_cases = [dict(case, id=case["id"] + len(cases)) for case in cases if case["scale"] == 1]
+
+    def describe_pipeline(case, event):
+        return {"op": "pipeline", "input": {k: case[k] for k in ("scene", "rules", "scale")}, "sampled": True,
+                "call": f"harness.detect.full_run(scene={case['scene']}, rules=<see replay>, scale=1)",
+                "features": c03.features(case), "observed": event["run"]}
+
+    run_batches(ctx, "Pipeline_Trace", pipeline_cases, observe_pipeline_many, describe_pipeline, batch=8000, min_per_shard=100)
+    ctx.notes["end_to_end_runs_validated"] = len(pipeline_cases)
     for ident in sorted(samples):
         ctx.sample(samples[ident])
     ctx.exhaustive = False
@@ -146,6 +170,11 @@ def run(ctx):
 def replay(ctx, record):
     case = dict(record["input"])
     case["id"] = 0
+    if record["op"] in ("pipeline", "detect", "candidates", "regions") and "ks" not in case:
+        event = observe_pipeline_many([case])[0]
+        ctx.validate("Pipeline_Trace", [event], {0: {"op": record["op"], "input": record["input"]}})
+        ctx.failures = [f for f in ctx.failures if f["clause"] == record["clause"]]
+        return
     event = observe(case)
     ctx.validate("Detect_Trace", [event], {0: {"op": "meta", "input": record["input"], "call": call_text(case)}})
     ctx.failures = [f for f in ctx.failures if f["clause"] == record["clause"]]
